@@ -25,7 +25,7 @@ def run(ctx):
     res.samples = [{"map": {"a": ["b", "b"], "b": ["a", "x"], "x": ["a", "b"]}, "universe": None, "traversal": "dft_iterative", "expected": ["a", "b", "x"]}]
     for r in bad:
         mod, lst, gen, _ = trav.TRAVS[r["trav"]]
-        res.violation("ORDER", f"{mod}.{gen}", f"universe={'subclass-overriding-vertices' if r.get('hidden') else ('given' if r['universe'] else 'None')},ff_result={'none' if r['ff_result'] == 'none' else 'filtering'}",
+        res.violation("ORDER", f"{mod}.{gen}", f"universe={'subclass-overriding-vertices' if r.get('hidden') else (('given-of-a-class-whose-truth-value-is-False' if r.get('falsy_uni') else 'given') if r['universe'] else 'None')},ff_result={'none' if r['ff_result'] == 'none' else 'filtering'}",
                       f"{r['trav']} ({r['form']} form) on neighbour map {r['map']} universe {r['universe']} ff_result={r['ff_result']}: derived sequence {r['got']}, canonical order {r.get('want')}",
                       replay=trav.replay_map(r))
     res.rule("ORDER-SWEEP", n)
